@@ -233,6 +233,13 @@ pub fn run_case(rep: &mut Report, case: &Case, verbose: bool) {
             };
             let mut m = r.next_announce();
             m.tlvs = tlvs.clone();
+            if looping && sender == 0 && rng.gen_bool(0.4) {
+                // a loop is a loop whatever the looping Announce says about its distance
+                if let Body::Announce(ref mut a) = m.body {
+                    a.steps_removed = [254u16, 255, 256, 65535][rng.gen_range(0..4)];
+                    rep.ev("looping_announce_with_large_steps_removed");
+                }
+            }
             let bytes = m.encode();
             if bytes.len() > 2048 {
                 continue;
